@@ -16,6 +16,10 @@ const FILL: u8 = 0xA5;
 fn check_writer(ctx: &mut Ctx, label: &str, obj: &dyn AttributeWrite, value_len: usize, w: &dyn Fn() -> Value, all_short: bool) {
     ctx.eval();
     let padded_want = 4 + value_len.div_ceil(4) * 4;
+    let huge_dest = ctx.evals % 61 == 0;
+    if huge_dest {
+        ctx.count("huge-destinations");
+    }
     let r = guard(|| {
         let raw = obj.to_raw();
         let via_raw = raw.to_bytes();
@@ -26,6 +30,19 @@ fn check_writer(ctx: &mut Ctx, label: &str, obj: &dyn AttributeWrite, value_len:
             let mut dest = vec![FILL; padded_want + extra];
             let ret = obj.write_into(&mut dest).map_err(|e| format!("{e:?}"));
             results.push((extra, ret, dest));
+        }
+        // destinations of 64 KiB and more (their length does not fit 16 bits), for a sample of the values
+        if huge_dest {
+            for total in [65_536usize, 65_536 + padded_want - 1, 65_540, 131_072] {
+                let mut dest = vec![FILL; total];
+                let ret = obj.write_into(&mut dest).map_err(|e| format!("{e:?}"));
+                let tail_ok = dest[padded_want.min(total)..].iter().all(|b| *b == FILL);
+                dest.truncate(padded_want + 1);
+                if !tail_ok {
+                    dest.clear();
+                }
+                results.push((total - padded_want, ret, dest));
+            }
         }
         // the raw attribute's own in-place writer too
         let mut dest = vec![FILL; padded_want + 3];
@@ -71,7 +88,7 @@ fn check_writer(ctx: &mut Ctx, label: &str, obj: &dyn AttributeWrite, value_len:
         return;
     }
     for (extra, ret, dest) in &results {
-        let ok = *ret == Ok(padded_want) && dest[..padded_want] == via_raw[..] && dest[padded_want..].iter().all(|b| *b == FILL);
+        let ok = *ret == Ok(padded_want) && dest.len() >= padded_want && dest[..padded_want] == via_raw[..] && dest[padded_want..].iter().all(|b| *b == FILL);
         if !ok {
             let first = dest.iter().zip(via_raw.iter()).position(|(a, b)| a != b);
             ctx.violation(
@@ -81,7 +98,7 @@ fn check_writer(ctx: &mut Ctx, label: &str, obj: &dyn AttributeWrite, value_len:
                 label,
                 w,
                 format!("Ok({padded_want}), bytes equal to to_raw().to_bytes(), nothing beyond touched (destination +{extra})"),
-                format!("{ret:?}, first difference at {first:?}, tail untouched = {}", dest[padded_want..].iter().all(|b| *b == FILL)),
+                format!("{ret:?}, first difference at {first:?}, tail untouched = {}", dest.len() >= padded_want && dest[padded_want..].iter().all(|b| *b == FILL)),
             );
             return;
         }
@@ -175,9 +192,31 @@ pub fn check_builder_paths(ctx: &mut Ctx, p: &Program, all_short: bool) {
     let w = || p.to_json();
     let r = guard(|| {
         let objs = make_objs(p)?;
-        let b = apply_program(p, &objs)?;
+        let mut b = apply_program(p, &objs)?;
+        let untouched = b.build();
+        // refused operations first (a duplicate type, an ordinary attribute after a seal, a second
+        // FINGERPRINT): they must leave every serialisation path exactly as it was
+        let mut refused = 0;
+        if let Some(first) = p.attrs.first() {
+            refused += b.add_raw_attribute(RawAttribute::new(AttributeType::new(first.ty()), &[1, 2, 3]).into_owned()).is_err() as u32;
+        }
+        if !p.seals.is_empty() {
+            refused += b.add_raw_attribute(RawAttribute::new(AttributeType::new(0x7f7f), &[9; 5]).into_owned()).is_err() as u32;
+        }
+        if p.seals.contains(&SealSpec::Fp) {
+            refused += b.add_fingerprint().is_err() as u32;
+        }
         let built = b.build();
+        if refused > 0 && built != untouched {
+            return Err(format!("REFUSED-OP-TRACE {} -> {} bytes", untouched.len(), built.len()));
+        }
         let len = b.byte_len();
+        // a destination of 64 KiB and more
+        let mut huge = vec![FILL; 65_536 + len];
+        let hret = b.write_into(&mut huge).map_err(|e| format!("{e:?}"));
+        if hret != Ok(len) || huge[..len] != built[..] || huge[len..].iter().any(|x| *x != FILL) {
+            return Err(format!("HUGE-DESTINATION {hret:?}"));
+        }
         let mut outs = vec![];
         for extra in [0usize, 1, 16, 300] {
             let mut dest = vec![FILL; len + extra];
@@ -202,6 +241,8 @@ pub fn check_builder_paths(ctx: &mut Ctx, p: &Program, all_short: bool) {
     });
     match r {
         Err(pn) => ctx.violation("C12", "no-panic", "MessageBuilder::write_into", "", w, "bytes".into(), format!("panic: {} at {}", pn.msg, pn.loc)),
+        Ok(Err(e)) if e.starts_with("REFUSED-OP-TRACE") => ctx.violation("C12", "build-after-refused-operation", "MessageBuilder::build", "", w, "the serialisation as it was before the refused operations".into(), e),
+        Ok(Err(e)) if e.starts_with("HUGE-DESTINATION") => ctx.violation("C12", "write-into-equals-build", "MessageBuilder::write_into", "destination+65536", w, "Ok(len), bytes equal to build(), nothing beyond touched".into(), e),
         Ok(Err(_)) => {}
         Ok(Ok((built, len, outs, cloned, cloned_owned, owned, short_res))) => {
             ctx.distinct(hash64(&[0xB, len as u64, hash_bytes(&built[..built.len().min(40)])]));
@@ -295,6 +336,24 @@ pub fn run(ctx: &mut Ctx) {
     let quick = ctx.tier == Tier::Quick;
     let tid = [0x5cu8; 12];
     let mut idx = 0u64;
+    // ---- builders whose attributes add up to more than the 16-bit length field can express: not a
+    //      legal message, but every serialisation path still produces the same bytes ----
+    for (j, sizes) in [vec![40_000usize, 30_001], vec![65_000, 65_000, 7], vec![60_000, 5_600], vec![700; 95]].into_iter().enumerate() {
+        idx += 1;
+        if !ctx.mine(idx) {
+            continue;
+        }
+        let p = Program {
+            class: (j % 4) as u8,
+            method: 1 + j as u16,
+            tid,
+            attrs: sizes.iter().enumerate().map(|(i, n)| AttrSpec::Raw(0x5000 + i as u16, vec![0x6b; *n])).collect(),
+            seals: vec![],
+            creds: crate::refimpl::parse::RefCreds::Short("x".into()),
+        };
+        check_builder_paths(ctx, &p, false);
+        ctx.count("oversized-builders");
+    }
     // ---- mutation between serialisations ----
     for n0 in 0..6usize {
         for nadd in 1..5usize {
@@ -373,7 +432,9 @@ pub fn run(ctx: &mut Ctx) {
         }
     }
     for k in ALL_KINDS {
-        ctx.require(&format!("writer:{}", k.name()), 50);
+        ctx.require("oversized-builders", 4);
+    ctx.require("huge-destinations", 1_000);
+    ctx.require(&format!("writer:{}", k.name()), 50);
     }
     ctx.require("writer:raw", 500);
     ctx.require("short-destinations", 50_000);
